@@ -1,9 +1,12 @@
 #!/bin/sh
 # usage: trymutant.sh <patch.diff> <command...>   : apply patch to /repo, run command in /verif, un-apply the patch
-# (never `git checkout -- .`: that would also discard uncommitted contract edits)
+# (never `git checkout -- .`: that would also discard uncommitted contract edits). The evidence files are put back
+# afterwards: evidence of a run on a changed tree must never be committed.
 P="$1"; shift
 git -C /repo apply "$P" || { echo "PATCH DOES NOT APPLY"; exit 3; }
 cd /verif
+SAVE=$(mktemp -d /tmp/evsave.XXXXXX); cp -a evidence/. "$SAVE"/
 "$@"; rc=$?
 git -C /repo apply -R "$P" || echo "WARNING: could not un-apply $P"
+cp -a "$SAVE"/. evidence/; rm -rf "$SAVE"
 echo "exit=$rc"
